@@ -357,6 +357,8 @@ def run(ctx):
             for seq in itertools.product(hops, repeat=n):
                 if 'hnext' not in seq and 'execbad' not in seq:
                     continue
+                if 'execbad' in seq and n >= 4 and not ctx.thorough():
+                    continue        # (a failing execute is slow: the longest sequences with one are left to the thorough tier)
                 ops = [('execute', 0)] + [(o, 1 if o == 'execute' else (k % 2 if o == 'execbad' else None)) for k, o in enumerate(seq)]
                 check_script(ctx, results, ops, 'held-iterator')
             if ctx.stop():
